@@ -2,6 +2,8 @@
 
 package dastard
 
+import "sync"
+
 // Verification hooks (build tag "verif" only). Each is a no-op unless a test driver installs the
 // corresponding function variable. See /verif/DESIGN.md.
 
@@ -25,6 +27,18 @@ func vpoint(name string) {
 func vevent(name string, kv ...any) {
 	if f := VEvent; f != nil {
 		f(name, kv...)
+	}
+}
+
+// vheld reports, as an event, whether mu is held at this point: the code is about to act on a decision it made about
+// the state mu protects (decision and action are one atomic step of the specification).
+func vheld(name string, mu *sync.Mutex) {
+	if f := VEvent; f != nil {
+		held := !mu.TryLock()
+		if !held {
+			mu.Unlock()
+		}
+		f(name, "held", held)
 	}
 }
 
